@@ -87,6 +87,7 @@ package keystore
 
 // Unlock reports success only after the passphrase was verified for every keystore of the wallet (C03)
 //@ func (*KeystoreManagerForPoC).useKeystore
+//@   assert-at store AddrManager.hashedPrivPassphrase reference-hash-replaced-only-after-the-passphrase-was-verified: pwChecked[addrManager]
 //@   ensures verified-for-the-named-keystore: err == nil ==> has(kmc.managedKeystores, name) && pwChecked[kmc.managedKeystores[name]]
 //@   ensures earlier-verifications-kept: err == nil ==> (forall x int :: old(pwChecked[x]) ==> pwChecked[x])
 //@ func (*KeystoreManagerForPoC).Unlock
